@@ -133,6 +133,13 @@ CONTRACTS = [
                  'only_tmp': 'OnlyTmpTouched(self, old(fs_ops), fs_ops)',
                  'complete': 'CompleteBeforeRename(self, old(fs_ops), fs_ops)',
                  'not_remembered': 'Renamed(self, old(fs_ops), fs_ops) or same_value(self.persistentData, old(self.persistentData))'}),
+    # start-up precedence (bounded stand-in only): configuration > stored file > default, for parameters with and without write methods
+    dict(key='PersistentMixin.__init__', vc=False, file='frappy/persistent.py', func='PersistentMixin.__init__', serves=['C17'],
+         self_type='PersistentMixin', requires=[],
+         ensures={'precedence': 'all(getattr(self, p) == v for p, v in expected.items())',
+                  'to_hardware': 'all((p in self.writeDict) == w for p, w in expect_write.items())',
+                  'snapshot_current': 'DiskContent(self) == Wanted(self)'},
+         raises='never'),
     dict(key='PersistentMixin.loadPersistentData', vc=False, file='frappy/persistent.py', func='PersistentMixin.loadPersistentData',
          serves=['C17'], self_type='PersistentMixin', requires=[],
          ensures={'dict': 'is_dict(result)',
